@@ -35,6 +35,7 @@ def runLine (line : String) : Driver.Result :=
   | ["jl", _, defs, stdin, ext, y, i, o, l] => Driver.JlCase.runCase defs stdin ext y i o l
   | ["jlbad", _, what, run] => Driver.JlCase.runBad what run
   | ["jlkeep", _, what, a, b] => Driver.JlCase.runKeep what a b
+  | ["getter", _, row, name, key, ext, impl] => Driver.PathCase.runGetter row name key ext impl
   | ["imp", prop, f, ty, src, ext, impl] => Driver.TypedCase.runImp prop f ty src ext impl
   | ["typed", _, f, ty, src, ext, w, b1, b2] => Driver.TypedCase.runTyped f ty src ext w b1 b2
   | ["twice", _, zone, ti, to, line, ext, first, second] => Driver.TypedCase.runTwice zone ti to line ext first second ""
